@@ -51,7 +51,15 @@ def stepBld (st : BRun) (q : String × String) : BRun :=
             -- a failed call must leave the builder exactly as it was
             if parts = [toString e.code, bytesToHex b.buf] then { st with rejected := st.rejected + 1 }
             else { st with err := some s!"{what}: model {e.code}:{bytesToHex b.buf} (unchanged) impl {ans}" }
-        if k = 'S' then
+        if k = 'J' then
+          -- a refused init on a live builder leaves it exactly as it was
+          match a.map String.toNat? with
+          | [some sc, some fl] =>
+            match init sc fl with
+            | .error e => check (.error e) call
+            | .ok _ => { st with err := some "J expects an invalid scale" }
+          | _ => { st with err := some "bad init args" }
+        else if k = 'S' then
           match vecOf a with
           | some v => check (setStart b v) call
           | none => { st with err := some "bad vector" }
